@@ -63,6 +63,19 @@ SNIPS = {
  'ax2_field_copy_name': ("x = psi.A\n    l2 = x.copy()\n    l2[0].fill(0)", True),
  'ay_field_mult': ("l2 = psi.A * 2\n    l2[0].fill(0)", True),
  'az_elem_copy': ("q = psi.qD[0].copy()\n    q[0] = 1", False),
+ # default rule for numpy functions in no table: no write, result may alias every argument
+ 'ba_default_alias': ("x = np.flipud(psi.A[0])\n    x.fill(0)", True),
+ 'ba2_default_pure': ("x = np.flipud(psi.A[0])\n    y = np.square(x) + np.flatnonzero(x).sum()", False),
+ 'bb_default_out': ("np.square(psi.A[0], out=psi.A[0])", True),
+ 'bc_nan_to_num': ("np.nan_to_num(psi.A[0], copy=False)", True),
+ 'bd_ufunc_at': ("np.add.at(psi.A[0], 0, 1)", True),
+ 'be_overwrite': ("import scipy.linalg\n    scipy.linalg.eigh(psi.A[0][0], overwrite_a=True)", True),
+ # item assignment into an array allocated here copies values; into a list it stores the reference
+ 'bf_setitem_array': ("B0 = np.zeros((2, 2))\n    B0[:] = psi.A[0][0]\n    B0.fill(0)", False),
+ 'bg_setitem_list': ("l3 = [None]\n    l3[0] = psi.A[0]\n    l3[0].fill(0)", True),
+ # containers from collections keep references to their elements
+ 'bj_deque': ("import collections", True),
+ 'bh_setitem_object': ("B0 = np.empty(1, dtype=object)\n    B0[0] = psi.A[0]\n    B0[0].fill(0)", True),
 }
 def run(name, snip, expect):
     r = os.path.join(BASE, name)
